@@ -270,6 +270,28 @@ func runC15(c *fw.Case) {
 		m.link = "ipfs://" + m.link[:8] + ":" + m.link[8:16] + ": "
 		m.sig = signer.sign(c15Payload(m.addr, m.refID, m.link))
 		recs = append(recs, m)
+		// ... and they may be long (a URL with a query string, a list of mirrors): every byte of
+		// the stored link is covered by the signature
+		longTail := func(n int) string {
+			t := "https://storage.example/" + randHex(c, 16) + "?mirror="
+			for len(t) < n {
+				t += randHex(c, 16) + "/"
+			}
+			return t[:n]
+		}
+		m = base("long-link")
+		m.link = longTail(150 + c.R.Intn(900))
+		m.sig = signer.sign(c15Payload(m.addr, m.refID, m.link))
+		recs = append(recs, m)
+		m = base("long-link-signed-without-its-tail")
+		m.link = longTail(150 + c.R.Intn(900))
+		m.sig = signer.sign(c15Payload(m.addr, m.refID, m.link))
+		m.link += randHex(c, 1+c.R.Intn(8))
+		recs = append(recs, m)
+		m = base("long-link-signed-with-another-last-byte")
+		m.link = longTail(200 + c.R.Intn(3000))
+		m.sig = signer.sign(c15Payload(m.addr, m.refID, m.link[:len(m.link)-1]+"#"))
+		recs = append(recs, m)
 		m = base("signed-by-other-key-with-matching-cert")
 		m.cert = other.pem
 		m.algo = other.algo
@@ -311,7 +333,7 @@ func runC15(c *fw.Case) {
 		checkLinks("after storing record " + r.label)
 		// expected validity from the independent verifier over what is stored
 		want := r.storeLink && r.storeSig && independentVerify(c15Payload(r.addr, r.refID, r.link), r.sig, r.algo, r.cert)
-		if r.label == "valid" || r.label == "signed-by-other-key-with-matching-cert" || r.label == "link-ending-with-separator" || r.label == "empty-link" || r.label == "link-with-inner-separators" {
+		if r.label == "valid" || r.label == "signed-by-other-key-with-matching-cert" || r.label == "link-ending-with-separator" || r.label == "empty-link" || r.label == "link-with-inner-separators" || r.label == "long-link" {
 			if !want {
 				c.Inconclusive("harness produced an invalid 'valid' record")
 				return
